@@ -96,6 +96,7 @@ def gen_case(prng: Prng, tier: str) -> dict:
             z_dtype=prng.choice(["f8", "f8", "f4"]),
             coord_dtype=prng.choice(["f8", "f8", "f4", "i4"]),
             degrees=prng.chance(3, 4) if source != "random" else True,
+            boundary=prng.chance(1, 4),  # a tenth of the records within 1e-9 .. 1e-7 rad of a patch boundary
         ),
         source=source,
         patch=dict(
